@@ -211,7 +211,7 @@ func newSide(eng string, s settings, limit uint32, cache wazero.CompilationCache
 	} else {
 		rc = wazero.NewRuntimeConfigInterpreter()
 	}
-	rc = rc.WithCoreFeatures(api.CoreFeaturesV2).WithMemoryLimitPages(limit).WithMemoryCapacityFromMax(s.CFM).
+	rc = rc.WithCoreFeatures(api.CoreFeaturesV2 | experimental.CoreFeaturesTailCall).WithMemoryLimitPages(limit).WithMemoryCapacityFromMax(s.CFM).
 		WithDebugInfoEnabled(!s.NoDebug).WithCustomSections(s.Custom).WithCloseOnContextDone(s.CloseCtx)
 	if cache != nil {
 		rc = rc.WithCompilationCache(cache)
